@@ -766,11 +766,69 @@ def _p_listdir(path="."):
     return w.fs.listdir(path)
 
 
+class SimDirEntry:
+    def __init__(self, w, dirpath, name):
+        self._w = w
+        self.name = name
+        self.path = os.path.join(dirpath, name)
+
+    def is_dir(self, *, follow_symlinks=True):
+        return self._w.fs.norm(self.path) in self._w.fs.dirs
+
+    def is_file(self, *, follow_symlinks=True):
+        return self._w.fs.norm(self.path) in self._w.fs.files
+
+    def is_symlink(self):
+        return False
+
+    def is_junction(self):
+        return False
+
+    def stat(self, *, follow_symlinks=True):
+        return _p_stat(self.path)
+
+    def inode(self):
+        return self.stat().st_ino
+
+    def __fspath__(self):
+        return self.path
+
+    def __repr__(self):
+        return f"<SimDirEntry {self.name!r}>"
+
+
+class SimScandir:
+    def __init__(self, entries):
+        self._it = iter(entries)
+
+    def __iter__(self):
+        return self
+
+    def __next__(self):
+        return next(self._it)
+
+    def __enter__(self):
+        return self
+
+    def __exit__(self, *a):
+        self.close()
+        return False
+
+    def close(self):
+        self._it = iter(())
+
+
 def _p_scandir(path="."):
     w = _world_for(path)
     if w is None:
         return _REAL["os.scandir"](path)
-    raise HarnessError("simfs: os.scandir on a virtual path is not modelled")
+    if isinstance(path, int):
+        raise HarnessError("simfs: os.scandir on a simulated fd is not modelled")
+    w.sched("scandir", path)
+    p = os.fspath(path)
+    if isinstance(p, bytes):
+        p = p.decode()
+    return SimScandir([SimDirEntry(w, p, name) for name in w.fs.listdir(p)])
 
 
 def _p_unlink(path, *a, **kw):
@@ -1083,6 +1141,14 @@ def install():
         return
     import fcntl
 
+    # numpy captures the builtin ``open`` when np.lib._datasource is first used: make it capture the real one now
+    import numpy as np
+
+    fo = np.lib._datasource._file_openers
+    fo._load()
+    if fo._file_openers.get(None) is not io.open:
+        raise HarnessError("seam mismatch: numpy's default file opener is not builtins.open")
+
     _REAL.update({
         "io.open": io.open, "os.stat": os.stat, "os.lstat": os.lstat, "os.fstat": os.fstat, "os.mkdir": os.mkdir,
         "os.rmdir": os.rmdir, "os.listdir": os.listdir, "os.scandir": os.scandir, "os.unlink": os.unlink,
@@ -1110,12 +1176,5 @@ def install():
     time.time, time.monotonic, time.time_ns, time.sleep = _p_time, _p_monotonic, _p_time_ns, _p_sleep
     fcntl.flock, fcntl.lockf, fcntl.fcntl = _flock, _lockf, _fcntl
     tempfile._get_candidate_names = _get_candidate_names
-    # numpy captured the builtin ``open`` when np.lib._datasource was first used
-    import numpy as np
-
-    fo = np.lib._datasource._file_openers
-    fo._load()
-    if fo._file_openers.get(None) is not _REAL["io.open"]:
-        raise HarnessError("seam mismatch: numpy's default file opener is not builtins.open")
     fo._file_openers[None] = sim_open
     _INSTALLED = True
